@@ -18,6 +18,26 @@ the FIELD buffer, OPTION BASE, and the record sizes of the documented variable l
 a modelled outcome in every state (possibly "skip" where GW-BASIC semantics are unspecified).
 
 What is deliberately not judged (property silent / unspecified corner) is marked `# unspecified:`.
+
+Oracles
+  C10  read-back of every variable/element after every op (Session.get_variable; PRINT-path via
+       evaluate for samples); a failing statement leaves everything unchanged; FRE("") equals
+       F0 - records - live string bytes (F0 calibrated on the empty state of the same session; bounds
+       only while some strings live in program text); FRE(0) repeatable and never above that; CLEAR ,n,m
+       moves F0 by (dn - dm); Out of memory / Out of string space only when the reference has less than
+       the statement's worst-case need free AND the engine's own FRE("") agrees (otherwise the
+       disagreement itself is the finding); crashes inside the collector/string space.
+  C11  VARPTR inside the scalar/array area given by DS:358h..35Dh; PEEK(VARPTR..) = MKI$/MKS$/MKD$ of the
+       same variable, = <len, addr> for strings with PEEK(addr..) the characters; VARPTR$ = size byte +
+       address; value ranges and string-space data ranges pairwise disjoint (addresses of one sweep are
+       all read before anything is evaluated that could start a collection); areas packed and record
+       header (size byte, first letter) where the documented layout puts them; no other variable changes
+       on assignment (the read-back).
+  C12  DIM/auto-DIM shapes for both bases, Duplicate definition, ERASE+DIM, OPTION BASE conflicts, failed
+       DIM leaves no array, subscript errors 9/5 without changing anything, unique value in every element
+       (all tuples up to 600 elements, boundary + scattered tuples above) read back through the API and
+       through BASIC, all element addresses of small arrays distinct.
+A violation that leaves the reference model uncertain ends the run.
 """
 
 import os
@@ -25,11 +45,11 @@ import struct
 
 from .. import kernel as K
 from ..basicdrv import Driver, EngineCrash
-from .common import Run, execute, b, u, shash
+from .common import execute, b
 
 NAME = 'mem'
 PROPS = ('C10', 'C11', 'C12')
-RULE = ('one evaluation = one simulated direct-mode history (15-60 ops quick, up to 400 thorough) of '
+RULE = ('one evaluation = one simulated direct-mode history (12-55 ops quick, 40-400 thorough) of '
         'assignments, string functions, MID$/LSET/RSET, SWAP, DIM/ERASE/OPTION BASE, FIELD, DEF FN calls, '
         'CLEAR ,n,m and FRE under a per-run memory limit and a per-run forced-collection plan, with read-back '
         'of every variable after every op and VARPTR/PEEK sweeps; distinct = distinct (op kind, outcome, '
@@ -65,7 +85,7 @@ MAXLINE = 250
 
 
 def quick_runs(prop):
-    return {'C10': 2600, 'C11': 1300, 'C12': 1500}.get(prop, 1300)
+    return {'C10': 2600, 'C11': 1000, 'C12': 1500}.get(prop, 1000)
 
 
 ###############################################################################
@@ -159,7 +179,6 @@ class Ctx(object):
         self.auto = {}         # array name -> rank that would be auto-dimensioned
         self.newsc = []        # scalars created for certain on success
         self.sc_refs = set()   # scalar names referenced
-        self.selfsrc = False   # MID$ statement: source is the target itself
 
 
 def is_str(name):
@@ -633,12 +652,13 @@ class Planner(object):
 
         def commit():
             m.apply_auto(c)
-            if slot is not None and slot[0] == 'f':
+            if slot is None:
+                # a variable that holds no string keeps length 0: nothing to justify into
+                return
+            if slot[0] == 'f':
                 m.fbuf[slot[1]:slot[1] + slot[2]] = new
-            elif slot is None:
-                if not m.exists(r) or m.get_slot(r) is None:
-                    pass
             else:
+                # a program literal is copied to string space before it is modified
                 origin = 's' if slot[0] == 's' else 'u'
                 m.put(r, [origin, new])
         p.commit = commit
